@@ -873,6 +873,6 @@ int main(int argc, char** argv)
   install_crash_handlers("replays");
   install_segv_handler();
   ThreadsWorld w;
-  g_run_alarm_s = 90; // hand-offs go through the OS scheduler: leave room for a heavily loaded machine
+  g_run_alarm_s = 120; // hand-offs go through the OS scheduler: leave room for a heavily loaded machine
   return sim_main(w, argc, argv);
 }
